@@ -94,7 +94,8 @@ class _MemoryFile(io.RawIOBase):
     def on_modify(self):  # noqa: D401
         # type: () -> None
         """Called when file data is modified."""
-        self._dir_entry.modified_time = self.modified_time = time.time()
+        if self._mode.writing:
+            self._dir_entry.modified_time = self.modified_time = time.time()
 
     def on_access(self):  # noqa: D401
         # type: () -> None
